@@ -375,3 +375,31 @@ def run(repo: Repo, rep: Report) -> None:  # noqa: F811
             rep.ob("C19.j-cell-occupancy-is-read-from-the-graph", col, "Collection." + name, a, bool(tests),
                    "occupancy of %s read from the graph %s" % (cell, "in the loop" if scope is not f else "before filling") if tests else
                    "the member is written to %s without asking the graph, in this %s, whether that cell already has one: on a one-member list `c += [x]` writes a second rdf:first onto the head cell" % (cell, "loop iteration" if scope is not f else "call"), node=a)
+
+
+_run_base3 = run
+
+
+def run(repo: Repo, rep: Report) -> None:  # noqa: F811
+    _run_base3(repo, rep)
+    col = repo.mod("rdflib.collection")
+    f = col.methods("Collection")["__iadd__"]
+    par = f.args.args[1].arg
+    rep.rule("C19.k-iadd-works-on-a-materialised-nonempty-input",
+             "Collection.__iadd__ (1) materialises its iterable (list(other) / tuple(other)) before the first change to the graph - the argument may be a lazy view of this very "
+             "list (`c += c`, `c += (x for x in c)`), and appending while walking it never ends; (2) returns before touching the graph when there is nothing to add - it detaches "
+             "the rdf:nil terminator first and re-attaches it at the end, which on an empty list would leave a head cell with rdf:rest but no rdf:first", floor=2)
+    muts = [c for c in own_nodes(f) if isinstance(c, ast.Call) and isinstance(c.func, ast.Attribute) and c.func.attr in ("add", "remove", "set") and "graph" in norm(c.func.value)]
+    if not muts:
+        raise AnalysisError("Collection.__iadd__: no graph mutation found")
+    first_mut = min(c.lineno for c in muts)
+    mat = [a for a in own_nodes(f) if isinstance(a, ast.Assign) and isinstance(a.value, ast.Call) and norm(a.value.func) in ("list", "tuple") and a.value.args and norm(a.value.args[0]) == par and a.lineno < first_mut]
+    loops_ = [n for n in own_nodes(f) if isinstance(n, ast.For)]
+    src = norm(mat[0].targets[0]) if mat else None
+    ok1 = bool(mat) and all(norm(l.iter) == src for l in loops_)
+    rep.ob("C19.k-iadd-works-on-a-materialised-nonempty-input", col, "Collection.__iadd__", mat[0] if mat else "for item in %s" % par, ok1,
+           "materialised before the first graph change" if ok1 else "the loop walks the argument itself while cells are appended: `c += c` does not terminate", node=mat[0] if mat else (loops_[0] if loops_ else f))
+    early = [n for n in own_nodes(f) if isinstance(n, ast.If) and n.lineno < first_mut and isinstance(n.test, ast.UnaryOp) and isinstance(n.test.op, ast.Not) and norm(n.test.operand) in (src, par)
+             and any(isinstance(r, ast.Return) for r in n.body)]
+    rep.ob("C19.k-iadd-works-on-a-materialised-nonempty-input", col, "Collection.__iadd__", early[0].test if early else "if not <items>: return self", bool(early),
+           "nothing to add: the graph is left alone" if early else "with an empty argument the terminator is detached and re-attached anyway: on an empty list `c += []` leaves (head rdf:rest rdf:nil) without rdf:first, after which c[0] raises KeyError", node=early[0] if early else f)
